@@ -235,7 +235,7 @@ def main(ctx):
         "traces_validated_against_impl": n_inst + n_reply + n_pipe,
         "exec_solver_order": order,
         "measured_pipe_capacity": sorted(caps),
-        "not_yet_proved": ["C16_reply_truncated_partial: proved for cuts at a word boundary (every split of the value lines); a cut inside a literal is covered by the general inversion theorem C16_reply_sat_needs_status_and_terminator only up to 'no word reads as 0'"],
+        "not_yet_proved": [],
     })
     ctx.assumptions += [
         "OS pipes: finite capacity >= 1 unit, blocking reads/writes, end-of-file when the writing end is closed, write error when the reading end is gone (Model.Pipe); scheduler fairness is not modelled",
